@@ -428,3 +428,134 @@ macro_rules! update_fails_harness {
 }
 update_fails_harness!(k_update_fails_bad_first, true);
 update_fails_harness!(k_update_fails_bad_last, false);
+
+// ------------------------------------------------------------------------------------------------
+// refresh (no signing key): C09 A-keys, C10 T-refresh, C17 (id kept / unknown id refused)
+// ------------------------------------------------------------------------------------------------
+// (a macro, not a function: a struct returned by value is moved with memcpy, after which CBMC no longer
+// constant-propagates the lengths stored in it and every later allocation sized by them becomes unbounded)
+macro_rules! mk_usk {
+    ($a0:expr, $a1:expr, $secrets:expr) => {
+        UserSecretKey {
+            id: UserId(ll![ToyScalar::new($a0), ToyScalar::new($a1)]),
+            ps: vec![ToyPoint::from(&ToyScalar::new(1)), ToyPoint::from(&ToyScalar::new(2))],
+            secrets: $secrets,
+            signature: None,
+        }
+    };
+}
+fn id_is(usk: &UserSecretKey, a0: u8, a1: u8) -> bool {
+    let mut it = usk.id.iter();
+    match (it.next(), it.next(), it.next()) {
+        (Some(x), Some(y), None) => x.0[0] == a0 && y.0[0] == a1,
+        _ => false,
+    }
+}
+
+/// Issued key (id known), one right rotated since: refresh with either flag succeeds, keeps the id, and the
+/// key holds the newest secret first (keep=false: only that one).
+macro_rules! refresh_ok_harness {
+    ($name:ident, $keep:expr) => {
+        #[kani::proof]
+        #[kani::unwind(4)]
+        #[kani::stub(zeroize::optimization_barrier, nop_barrier)]
+        #[kani::stub(alloc::fmt::format, no_format)]
+        fn $name() {
+            let h = distinct4();
+            let mut msk = mk_msk(elt());
+            msk.secrets.map.insert(r0(), ll![(true, secret(h[0], false)), (true, secret(h[1], false))]);
+            msk.tsk.users.insert(UserId(ll![ToyScalar::new(3), ToyScalar::new(5)]));
+            let mut rv = RevisionVec::new();
+            rv.create_chain_with_single_value(r0(), secret(h[1], false));
+            let mut usk = mk_usk!(3, 5, rv);
+            let mut rng = SymRng;
+            let res = refresh(&mut rng, &mut msk, &mut usk, $keep);
+            kani::cover!(true, "reached");
+            assert!(res.is_ok(), "refresh of an issued key must succeed");
+            assert!(id_is(&usk, 3, 5), "refresh changed the id of a key whose tracing level is in sync");
+            assert!(usk.secrets.len() == 1);
+            let (_, c) = usk.secrets.iter().next().unwrap();
+            assert!(sk_of(c.front().unwrap()) == h[0], "refreshed key does not start with the newest secret");
+            if $keep {
+                assert!(c.len() == 2 && sk_of(c.back().unwrap()) == h[1]);
+            } else {
+                assert!(c.len() == 1, "refresh without keeping old secrets must leave exactly the newest secret");
+            }
+            assert!(msk.tsk.users.len() == 1);
+            std::mem::forget(res);
+            std::mem::forget(usk);
+            std::mem::forget(msk);
+        }
+    };
+}
+refresh_ok_harness!(k_refresh_ok_keep, true);
+refresh_ok_harness!(k_refresh_ok_nokeep, false);
+
+/// C09: an issued key holding a right that was deleted from the master key since: refresh succeeds with
+/// either flag and the deleted right leaves the key, the other right stays.
+macro_rules! refresh_deleted_harness {
+    ($name:ident, $keep:expr) => {
+        #[kani::proof]
+        #[kani::unwind(4)]
+        #[kani::stub(zeroize::optimization_barrier, nop_barrier)]
+        #[kani::stub(alloc::fmt::format, no_format)]
+        fn $name() {
+            let h = distinct4();
+            let mut msk = mk_msk(elt());
+            msk.secrets.map.insert(r0(), ll![(true, secret(h[0], false))]);
+            msk.tsk.users.insert(UserId(ll![ToyScalar::new(3), ToyScalar::new(5)]));
+            let mut rv = RevisionVec::new();
+            rv.create_chain_with_single_value(r1(), secret(h[1], false));
+            rv.create_chain_with_single_value(r0(), secret(h[0], false));
+            let mut usk = mk_usk!(3, 5, rv);
+            let mut rng = SymRng;
+            let res = refresh(&mut rng, &mut msk, &mut usk, $keep);
+            kani::cover!(true, "reached");
+            assert!(res.is_ok(), "refresh of an issued key must succeed whatever was deleted in between");
+            assert!(id_is(&usk, 3, 5));
+            assert!(usk.secrets.len() == 1, "the deleted right must leave the key, the other one must stay");
+            let (r, c) = usk.secrets.iter().next().unwrap();
+            assert!(r.0.is_empty() && c.len() == 1 && sk_of(c.front().unwrap()) == h[0]);
+            std::mem::forget(res);
+            std::mem::forget(usk);
+            std::mem::forget(msk);
+        }
+    };
+}
+refresh_deleted_harness!(k_refresh_deleted_keep, true);
+refresh_deleted_harness!(k_refresh_deleted_nokeep, false);
+
+/// C17 + C10 T-refresh: a key whose id the master key does not know is refused, and the failed refresh
+/// leaves the user key (id, secrets) and the master key (users) exactly as they were. (Ids concrete: the
+/// question is the ordering of validation and mutation, not the values.)
+macro_rules! refresh_unknown_harness {
+    ($name:ident, $keep:expr) => {
+        #[kani::proof]
+        #[kani::unwind(4)]
+        #[kani::stub(zeroize::optimization_barrier, nop_barrier)]
+        #[kani::stub(alloc::fmt::format, no_format)]
+        fn $name() {
+            let h = distinct4();
+            let mut msk = mk_msk(elt());
+            msk.secrets.map.insert(r0(), ll![(true, secret(h[0], false))]);
+            msk.tsk.users.insert(UserId(ll![ToyScalar::new(4), ToyScalar::new(5)]));
+            let mut rv = RevisionVec::new();
+            rv.create_chain_with_single_value(r0(), secret(h[0], false));
+            let mut usk = mk_usk!(3, 5, rv);
+            let mut rng = SymRng;
+            let res = refresh(&mut rng, &mut msk, &mut usk, $keep);
+            kani::cover!(true, "reached");
+            assert!(res.is_err(), "a key whose id is not registered must be refused");
+            assert!(id_is(&usk, 3, 5), "failed refresh emptied / changed the user key's id");
+            assert!(usk.secrets.len() == 1, "failed refresh emptied the user key's secrets");
+            let (_, c) = usk.secrets.iter().next().unwrap();
+            assert!(c.len() == 1 && sk_of(c.front().unwrap()) == h[0]);
+            assert!(msk.tsk.users.len() == 1);
+            std::mem::forget(res);
+            std::mem::forget(usk);
+            std::mem::forget(msk);
+        }
+    };
+}
+refresh_unknown_harness!(k_refresh_unknown_id_keep, true);
+refresh_unknown_harness!(k_refresh_unknown_id_nokeep, false);
